@@ -18,13 +18,13 @@ theorem getDynamicPayloads_post (s : DrvState) (h : Inv s) :
   exact { h.cached with dynPl := rfl }
 
 /-- the state shape every DYNPD setter ends in: FEATURE then DYNPD are written -/
-theorem dyn_write {s t : DrvState} (h : Inv s) {c : Radio} (hr : Reach s t c) (hc : c = s.cfg) (m : Nat)
+theorem dyn_write {s t : DrvState} (h : Inv s) {c : Radio} (hr : Reach3 s t c) (hc : c = s.cfg) (m : Nat)
     (hm : m < 64) (hd : Cached t.d (withDynpd s.cfg m)) :
     Post ((.ok () : Except PyErr Unit),
         (t.spiStep [0x20 ||| 0x1D, setBit s.cfg.feature 2 (decide (m ≠ 0))]).spiStep [0x20 ||| 0x1C, m])
       s (.ok ()) (withDynpd s.cfg m) t.d.pipe0ReadAddr := by
   have hb := bits_dpl _ h.ok.feature (decide (m ≠ 0))
-  refine Post.of_reach (Reach.write h.wf _ _ (by decide) (Reach.write h.wf _ _ (by decide) hr)) h.wf ?_ rfl
+  refine Post.of_reach (Reach3.write h.wf _ _ (by decide) (Reach3.write h.wf _ _ (by decide) hr)) h.wf ?_ rfl
     { hd with }
   subst hc
   rw [Radio.w_feature _ _ hb.2 h.ok.vis, Radio.w_dynpd _ _ hm (by exact h.ok.vis)]
@@ -43,18 +43,18 @@ theorem setDynamicPayloadsAttr_post (a : Arg) (m : Nat) (s : DrvState) (h : Inv 
     have hm : m = if v then 0x3F else 0 := by simpa [maskArg] using ha.symm
     subst hm
     exec_simp [readVal_feature s h.ok.vis, hf]
-    rw [exec_regWrite_nat _ _ _ (hf8 _) (by decide)]
+    rw [exec_regWrite_nat3 _ _ _ (hf8 _) (by decide)]
     exec_simp []
-    rw [exec_regWrite_nat _ _ _ (by split <;> decide) (by decide)]
+    rw [exec_regWrite_nat3 _ _ _ (by split <;> decide) (by decide)]
     refine dyn_write h (by reach h.wf) rfl _ (by split <;> decide) ?_
     exact { h.cached with dynPl := rfl, features := hf _ }
   | i v =>
     have hm : m = (v % 64).toNat := by simpa [maskArg] using ha.symm
     subst hm
     exec_simp [readVal_feature s h.ok.vis, hf]
-    rw [exec_regWrite_nat _ _ _ (hf8 _) (by decide)]
+    rw [exec_regWrite_nat3 _ _ _ (hf8 _) (by decide)]
     exec_simp []
-    rw [exec_regWrite_nat _ _ _ (by omega) (by decide)]
+    rw [exec_regWrite_nat3 _ _ _ (by omega) (by decide)]
     refine dyn_write h (by reach h.wf) rfl _ (mod64 v) ?_
     exact { h.cached with dynPl := rfl, features := hf _ }
   | l vs =>
@@ -63,9 +63,9 @@ theorem setDynamicPayloadsAttr_post (a : Arg) (m : Nat) (s : DrvState) (h : Inv 
     subst hm
     exec_simp [h.wf, readVal_feature s h.ok.vis,
       readVal_dynpd s h.ok.vis, hl.1, hf]
-    rw [exec_regWrite_nat _ _ _ (hf8 _) (by decide)]
+    rw [exec_regWrite_nat3 _ _ _ (hf8 _) (by decide)]
     exec_simp []
-    rw [exec_regWrite_nat _ _ _ (by omega) (by decide)]
+    rw [exec_regWrite_nat3 _ _ _ (by omega) (by decide)]
     refine dyn_write h (by reach h.wf) rfl _ hl.2 ?_
     exact { h.cached with dynPl := rfl, features := hf _ }
   | other => simp [maskArg] at ha
@@ -93,10 +93,10 @@ theorem setDynamicPayloads_pipe_post (e : Bool) (p : Int) (s : DrvState) (h : In
   have hf8 : ∀ b : Bool, setBit s.cfg.feature 2 b < 256 :=
     fun b => Nat.lt_trans (bits_dpl _ h.ok.feature b).2 (by decide)
   unfold setDynamicPayloads setDynamicPayloadsAttr
-  exec_simp [hp', h.wf, readVal_dynpd s h.ok.vis, readVal_feature s h.ok.vis, hb.1, cast_mod64 _ hb.2.1, hf]
-  rw [exec_regWrite_nat _ _ _ (hf8 _) (by decide)]
+  exec_simp [hp', h.wf, readVal_dynpd s h.ok.vis, readVal_feature s h.ok.vis, hb.1, cast_mod643 _ hb.2.1, hf]
+  rw [exec_regWrite_nat3 _ _ _ (hf8 _) (by decide)]
   exec_simp []
-  rw [exec_regWrite_nat _ _ _ (by omega) (by decide)]
+  rw [exec_regWrite_nat3 _ _ _ (by omega) (by decide)]
   refine dyn_write h (by reach h.wf) rfl _ hb.2.1 ?_
   exact { h.cached with dynPl := rfl, features := hf _ }
 
